@@ -229,6 +229,28 @@ CLAIMS["C11"] = dict(
               "CrossHair (z3-backed symbolic execution) for string inputs",
     ref="3/C11")
 
+CLAIMS["C18"] = dict(
+    text="The real cont_moments_cv, vol_revolve, get_bright, get_bright_bc, "
+         "get_bright_perc and correct_crosstalk/get_compensation_matrix run "
+         "on exact-real symbolic inputs; z3 (nlsat) proves: second-order "
+         "central moments are translation invariant and exchange under an "
+         "axis swap; the volume of revolution flips sign with orientation and "
+         "scales with the cube of the pixel size; brightness averages equal "
+         "the mean of the (background-corrected) image under the mask and "
+         "offsets (scalar, list, array, HDF5-like container) shift averages "
+         "and percentiles one-to-one without raising; crosstalk correction "
+         "inverts the modelled spill-over for every non-negative invertible "
+         "matrix.",
+    note="Trusted: z3/nlsat, symx, numpy shim (roll, diff, resize, symbolic "
+         "3x3 inverse); np.std/np.percentile are uninterpreted. NOT covered "
+         "(not encodable here, see not-applicable parts in DESIGN.md): "
+         "marching-squares contour tracing / mask refill, rotation "
+         "invariance of the principal ratio, convergence to analytic "
+         "volumes, convex hull, floating-point rounding.",
+    technique="symbolic execution of the real Python code objects + z3 "
+              "nlsat (QF_NRA) over exact reals",
+    ref="3/C18")
+
 NOT_APPLICABLE = {
 }
 
